@@ -589,7 +589,14 @@ func supervise(id, level string, watchdog time.Duration) int {
 		writeFallbackEvidence(id, level, tier, "violated: child crashed")
 		return ExitViolation
 	}
-	fmt.Printf("INCONCLUSIVE property=%s child died with status %d (stderr: %s)\n", id, code, errPath)
+	// keep what the child left (the next run overwrites child.stderr)
+	keepDir := filepath.Join(VerifDir, ".build", id, fmt.Sprintf("death-%d", time.Now().UnixNano()))
+	if os.MkdirAll(keepDir, 0o755) == nil {
+		os.WriteFile(filepath.Join(keepDir, "child.stderr"), b, 0o644)
+		os.WriteFile(filepath.Join(keepDir, "wait-error.txt"), []byte(fmt.Sprintf("%v\nstate: %v\n", werr, cmd.ProcessState)), 0o644)
+		errPath = filepath.Join(keepDir, "child.stderr")
+	}
+	fmt.Printf("INCONCLUSIVE property=%s child died with status %d (%v; stderr kept as %s)\n", id, code, cmd.ProcessState, errPath)
 	writeFallbackEvidence(id, level, tier, "inconclusive: child died")
 	return ExitInconclusive
 }
